@@ -28,6 +28,7 @@ type GenParams struct {
 	MinMsgs     int
 	TimeMode    int // 0 = drawn; 1 tiny, 2 ascending, 3 descending, 4 uniform, 5 extremes-heavy
 	SmallIDs    bool
+	PythonIDs   bool // ids 1,2,3,... in definition order and no re-writes (what Python's Writer assigns)
 }
 
 func Str(t *rapid.T, label string, allowLong bool) string {
@@ -215,7 +216,10 @@ func GenWorkload(t *rapid.T, p GenParams) Workload {
 		cur = rapid.Uint64Range(0, 1000).Draw(t, "t0")
 	}
 	sids, cids := schemaIDs, channelIDs
-	if !p.SmallIDs {
+	if p.PythonIDs {
+		sids = []uint16{1, 2, 3, 4, 5, 6, 7, 8}
+		cids = []uint16{1, 2, 3, 4, 5, 6, 7, 8}
+	} else if !p.SmallIDs {
 		sids = rapid.Permutation(schemaIDs).Draw(t, "schema-ids")
 		cids = rapid.Permutation(channelIDs).Draw(t, "channel-ids")
 	}
@@ -244,7 +248,7 @@ func GenWorkload(t *rapid.T, p GenParams) Workload {
 	for _, r := range raws {
 		switch r.Kind {
 		case 0:
-			if r.Rewrite && len(schemas) > 0 {
+			if r.Rewrite && len(schemas) > 0 && !p.PythonIDs {
 				s := *schemas[r.Which%len(schemas)]
 				w.Ops = append(w.Ops, Op{S: &s})
 				continue
@@ -256,7 +260,7 @@ func GenWorkload(t *rapid.T, p GenParams) Workload {
 			schemas = append(schemas, r.S)
 			w.Ops = append(w.Ops, Op{S: r.S})
 		case 1:
-			if r.Rewrite && len(channels) > 0 {
+			if r.Rewrite && len(channels) > 0 && !p.PythonIDs {
 				c := *channels[r.Which%len(channels)]
 				w.Ops = append(w.Ops, Op{C: &c})
 				continue
